@@ -5,7 +5,7 @@ All programs p1 op p2 ... pn (op in ; && ||, each pi = `vh-mark i s $?` exiting 
 (quoted / escaped operators as extra arguments), spellings (no blanks around the operators, trailing `;`, extra blanks)
 and two-stage pipelines as pi, run by the real binary
 with -c and as a script file; oracle = reference interpreter (status register, skip leaves it unchanged):
-exact record sequence, every $? probe, process exit status. Second layer: members of ten kinds (external, assignment
+exact record sequence, every $? probe, process exit status. Second layer: members of eleven kinds (external, killed by a signal = 128+n, assignment
 only, builtin succeeding / failing, cd, export, command not found, pipeline ending in a builtin): all programs of 1..2
 members over all kinds and of 3 members (quick: over five kinds), with a final $? probe and without (exit status)."""
 import itertools
@@ -64,6 +64,7 @@ def render(ops, stats, variant):
 KINDS = {   # name: (template, status, records a mark)
     'ext0': ('vh-mark %d 0 $?', 0, True),
     'ext3': ('vh-mark %d 3 $?', 3, True),
+    'killed-by-signal': ('vh-mark %d sig15 $?', 143, True),
     'assign': ('V%d=x', 0, False),
     'builtin-ok': ('alias z%d=1', 0, False),
     'builtin-fail': ('unalias nosuch%d', 1, False),
@@ -74,7 +75,7 @@ KINDS = {   # name: (template, status, records a mark)
     'pipeline-builtin-last': ('vh-io x%d 1 | alias', 0, False),
 }
 KINDS['cd-ok'] = ('cd .', 0, False)
-QUICK3 = ['ext0', 'ext3', 'assign', 'builtin-fail', 'not-found']
+QUICK3 = ['ext0', 'ext3', 'assign', 'builtin-fail', 'not-found', 'killed-by-signal']
 
 
 def kind_programs(tier):
